@@ -533,3 +533,10 @@ PLAN["C08"]["jobs"] = PLAN["C08"]["jobs"] + only(MPI_JOBS, lambda j: j["cfg"]["o
     only(STATE_JOBS, lambda j: j["cfg"]["alg"] == 2 and "quick" in j["tiers"])
 PLAN["C07"]["jobs"] = PLAN["C07"]["jobs"] + only(MPI_JOBS, lambda j: j["cfg"]["ob"] == 0 and j["cfg"]["alg"] == 1 and "quick" in j["tiers"]) + \
     only(STATE_JOBS, lambda j: j["cfg"]["alg"] == 1 and "quick" in j["tiers"])
+
+USED_JOBS = [
+    S("h_driver", drv(5, 0, n=2, cp=3, fk=2, used=1), ["builtin.decision_depends_only"], tiers=T, split=12, timeout_ms=600000),
+    S("h_driver", drv(5, 0, n=2, cp=3, fk=2, used=1, t0=1), ["builtin.decision_depends_only"]),
+]
+PLAN["C12"]["jobs"] = PLAN["C12"]["jobs"] + USED_JOBS
+PLAN["C03"]["jobs"] = PLAN["C03"]["jobs"] + USED_JOBS
